@@ -158,6 +158,19 @@ fn build_type_map(sp: &Space, g: u64, supers: &[&Vec<Sym>], mask: u32) -> TypeMa
         if mask >> i & 1 == 1 {
             let mut p = metatype::Property::new("p", "int");
             p.read = Some("p".to_owned());
+            // the attribute flags of a declaration differ from class to class: none of them makes a declared
+            // property any less declared
+            p.scriptable = i % 2 == 0;
+            p.designable = i % 3 != 1;
+            p.stored = i % 2 == 1;
+            p.user = i % 3 == 0;
+            p.constant = i % 2 == 1;
+            p.r#final = i % 3 == 2;
+            p.required = i % 2 == 0;
+            if i % 2 == 1 {
+                p.read = None;
+                p.member = Some("m_p".to_owned());
+            }
             c.properties.push(p);
             c.methods.push(metatype::Method::nullary("l", "void"));
             c.slots.push(metatype::Method::nullary("m", "void"));
